@@ -67,6 +67,8 @@ type hostWorld struct {
 	poisoned bool
 	// pre reports facts about the running case before the host is attacked (kept even if the host dies)
 	pre func(string)
+	// spies wrap the volume data files: which slots were written since the last fsync
+	spies map[int64]*syncSpy
 }
 
 func seedKey(n uint64) types.PrivateKey {
@@ -108,10 +110,14 @@ func newHostWorld(t *testing.T) *hostWorld {
 		t.Fatal(err)
 	}
 	res := make(chan error)
-	if _, err := w.node.Volumes.AddVolume(context.Background(), filepath.Join(t.TempDir(), "storage.dat"), 96, res); err != nil {
+	vol, err := w.node.Volumes.AddVolume(context.Background(), filepath.Join(t.TempDir(), "storage.dat"), 96, res)
+	if err != nil {
 		t.Fatal(err)
 	} else if err := <-res; err != nil {
 		t.Fatal(err)
+	}
+	if !w.wrapVolume(vol.ID) {
+		t.Fatal("could not wrap the volume data file")
 	}
 	w.sh2 = rhp2.NewSessionHandler(l2, w.hostKey, w.node.Chain, w.node.Syncer, w.node.Wallet, w.node.Contracts, w.node.Settings, w.node.Volumes, log)
 	t.Cleanup(func() { w.sh2.Close() })
@@ -440,6 +446,7 @@ type x3result struct {
 	outlens []uint64
 	cost    types.Currency
 	msg     string
+	roots   []types.Hash256 // 32-byte outputs (StoreSector / UpdateSector return the root they stored)
 }
 
 // buildProgramData places little-endian words; blobs: `off:kind:arg`
@@ -786,7 +793,13 @@ func (w *hostWorld) doX3(p vhlib.ParsedLine) string {
 		}
 	}
 	after := w.snapshot()
-	return fmt.Sprintf("res=%s k=%d outlens=%s init=%s costs=%s stor=%s %s", r.res, r.k, vhlib.FmtList(r.outlens), w.pt.InitBaseCost.ExactString(), vhlib.FmtList(costs), vhlib.FmtList(stor), snapObs(before, after))
+	syncObs := ""
+	if r.res == "accept" {
+		// the handler has returned: whatever this program stored or referenced must have been fsynced
+		ref, dirty := w.unsyncedReferenced(r.roots)
+		syncObs = fmt.Sprintf(" unsynced=%d dirty=%d", ref, dirty)
+	}
+	return fmt.Sprintf("res=%s k=%d outlens=%s init=%s costs=%s stor=%s %s%s", r.res, r.k, vhlib.FmtList(r.outlens), w.pt.InitBaseCost.ExactString(), vhlib.FmtList(costs), vhlib.FmtList(stor), snapObs(before, after), syncObs)
 }
 
 // refU64 reads an operand the way a correct accessor would (0 when out of range).
@@ -930,6 +943,9 @@ func (w *hostWorld) runProgram(prog []crhp3.Instruction, pd []byte, withContract
 			return fail(&crhp3.RPCError{Description: r.msg})
 		}
 		r.outlens = append(r.outlens, uint64(len(resp.Output)))
+		if len(resp.Output) == 32 {
+			r.roots = append(r.roots, types.Hash256(resp.Output))
+		}
 		last = resp
 	}
 	if needFin {
@@ -1438,7 +1454,12 @@ func (w *hostWorld) doV2Write(p vhlib.ParsedLine) string {
 		}
 	}
 	w.finish2(tr)
-	return fmt.Sprintf("res=%s %s", res, snapObs(before, w.snapshot()))
+	syncObs := ""
+	if res == "accept" {
+		ref, dirty := w.unsyncedReferenced(nil)
+		syncObs = fmt.Sprintf(" unsynced=%d dirty=%d", ref, dirty)
+	}
+	return fmt.Sprintf("res=%s %s%s", res, snapObs(before, w.snapshot()), syncObs)
 }
 
 // doV2Form: RPCFormContract whose renter key has `keylen` bytes.
